@@ -510,5 +510,27 @@ theorem saveVersion_cases (H : Bytes → Bytes) (s : St) :
       | some k => simp [hk]
       | none => simp [hk]
 
+/-- where the working tree of a `LoadVersion` comes from: it is left alone (all the
+error cases and the empty database), or it is the root the database holds for the
+version that was loaded — which the tree reports as existing -/
+theorem loadVersion_root (s : St) (t : Int) :
+    ((s.loadVersion t).2.root = s.root ∧ (s.loadVersion t).2.lsRoot = s.lsRoot ∧
+      (s.loadVersion t).2.version = s.version ∧ (s.loadVersion t).2.lsVersion = s.lsVersion) ∨
+    (∃ v r, s.db.getRoot v = .ok r ∧ (s.loadVersion t).2.root = r ∧ (s.loadVersion t).2.lsRoot = r ∧
+      (s.loadVersion t).2.version = v ∧ (s.loadVersion t).2.lsVersion = v ∧ ∃ l, (s.loadVersion t).1 = .ok l) := by
+  unfold loadVersion
+  have a := getFirstVersion_same s
+  have ab := a.trans (getLatestVersion_same s.getFirstVersion.2)
+  simp only
+  repeat' split
+  all_goals first
+    | exact Or.inl ⟨a.2.2.1, a.2.2.2.2.1, a.2.2.2.1, a.2.2.2.2.2.1⟩
+    | exact Or.inl ⟨ab.2.2.1, ab.2.2.2.2.1, ab.2.2.2.1, ab.2.2.2.2.2.1⟩
+    | exact Or.inl ⟨(ab.trans (versionExists_same _ _)).2.2.1, (ab.trans (versionExists_same _ _)).2.2.2.2.1,
+        (ab.trans (versionExists_same _ _)).2.2.2.1, (ab.trans (versionExists_same _ _)).2.2.2.2.2.1⟩
+    | (rename_i r heq
+       rw [(ab.trans (versionExists_same _ _)).1] at heq
+       exact Or.inr ⟨_, r, heq, rfl, rfl, rfl, rfl, _, rfl⟩)
+
 end St
 end GnoVerif.C30
